@@ -410,6 +410,53 @@ func announceVsClose() *sched.Scenario {
 	}
 }
 
+// K13: an announce-triggered sync whose block request the publisher never
+// answers || Close, with the plain and with the retrying HTTP client
+// (RetryableHTTPClient), request time-out one hour: Close cancels the sync, so
+// it returns without the time-out having to elapse (virtual time: what Close
+// took is measured on the bubble's clock, which only moves when everything is
+// blocked).
+func stalledAnnounceVsClose(retry bool) *sched.Scenario {
+	name := "K13-announce-sync-with-an-unanswered-request-vs-close"
+	so := []dagsync.Option{dagsync.HttpTimeout(time.Hour)}
+	if retry {
+		name += "+retrying-client"
+		so = append(so, dagsync.RetryableHTTPClient(1, time.Millisecond, 2*time.Millisecond))
+	}
+	return &sched.Scenario{Name: name,
+		Setup: func(e *sched.Exec) ([]sched.Thread, func()) {
+			w := schedfx.New(e, schedfx.Options{Pubs: 1, ChainLen: 3, Announce: true, SubOpts: so})
+			p, ch := w.Pubs[0], w.Chains[0]
+			w.StallBlock["0|2"] = true
+			return []sched.Thread{
+				{Name: "A", Fn: func() {
+					e.Log("A call Announce")
+					err := w.Sub.Announce(context.Background(), ch.Cids[2], p.AddrInfo())
+					e.Log("A ret Announce err=%v", err)
+				}},
+				{Name: "C1", Fn: func() {
+					e.Log("C1 call Close")
+					t0 := time.Now()
+					err := w.Sub.Close()
+					e.Log("C1 ret Close err=%v", err)
+					if d := time.Since(t0); d >= time.Hour {
+						e.Log("C1 close-took %v", d)
+					}
+				}},
+			}, finish(e, w)
+		},
+		Check: func(e *sched.Exec) []sched.Finding {
+			out := common(e, name, []string{"A", "C1"})
+			for _, l := range e.Obs() {
+				if strings.HasPrefix(l, "C1 close-took ") {
+					out = append(out, sched.Finding{Sig: name + ":close-waited-for-the-request-time-out", Msg: "Close returned only after " + strings.TrimPrefix(l, "C1 close-took ") + " of virtual time: the announce-triggered sync with an unanswered request was not cancelled (request time-out 1h)"})
+				}
+			}
+			return out
+		},
+	}
+}
+
 // K10: the announcement arrives over gossip pubsub (the subscriber has a libp2p
 // host, its receiver a real topic), so that the receiver's pubsub watcher
 // goroutine is the one handing it to the subscriber, while Close runs (one or
@@ -614,7 +661,7 @@ func postClose(call string) *sched.Scenario {
 
 func TestCheck(t *testing.T) {
 	r := vp.New("C15", "model_checking",
-		"scenarios on the real subscriber built with the instrumentation overlay (gated in-memory publisher, chain of 2-3 signed ads): K1 explicit sync (queried head) || Close, with one and with two concurrent Close callers (a sync that reports success must have reported every block); K11 the same with a segmented sync (segment size 1); K7 explicit syncs of two publishers || Close; K12 two explicit syncs of one publisher (the second waits for its turn) || Close; K8 announce-triggered syncs of two publishers under a limit of one at a time || Close; K9 an explicit sync whose block hook makes a nested explicit sync of another publisher || Close; K2 announce-triggered sync || Close; K10 the subscriber with a libp2p host and a real gossipsub topic, an announcement published on the topic (it reaches the subscriber through the receiver's pubsub watcher goroutine) || Close (thorough: two Close callers); K6 two announcements of one publisher and Close with every block already local, the first sync held in its block hook until nothing else can move (a sync still pending when Close cancels must be abandoned); K3 listener registration and cancellation || Close; K5 each of 11 entry points called after Close has returned. All interleavings at the scheduling points (locks, atomics, channel operations, selects, spawns, requests, hook calls, observations) up to the preemption bound, so Close starts at every point of a sync. 'Blocks forever' is decided by quiescence with the caller not finished. states = distinct decision states; transitions = scheduling steps; traces = executions of the real code.",
+		"scenarios on the real subscriber built with the instrumentation overlay (gated in-memory publisher, chain of 2-3 signed ads): K1 explicit sync (queried head) || Close, with one and with two concurrent Close callers (a sync that reports success must have reported every block); K11 the same with a segmented sync (segment size 1); K7 explicit syncs of two publishers || Close; K12 two explicit syncs of one publisher (the second waits for its turn) || Close; K8 announce-triggered syncs of two publishers under a limit of one at a time || Close; K9 an explicit sync whose block hook makes a nested explicit sync of another publisher || Close; K2 announce-triggered sync || Close; K13 an announce-triggered sync whose block request is never answered || Close, with the plain and the retrying HTTP client and a request time-out of one hour (Close must not take that long on the bubble's clock); K10 the subscriber with a libp2p host and a real gossipsub topic, an announcement published on the topic (it reaches the subscriber through the receiver's pubsub watcher goroutine) || Close (thorough: two Close callers); K6 two announcements of one publisher and Close with every block already local, the first sync held in its block hook until nothing else can move (a sync still pending when Close cancels must be abandoned); K3 listener registration and cancellation || Close; K5 each of 11 entry points called after Close has returned. All interleavings at the scheduling points (locks, atomics, channel operations, selects, spawns, requests, hook calls, observations) up to the preemption bound, so Close starts at every point of a sync. 'Blocks forever' is decided by quiescence with the caller not finished. states = distinct decision states; transitions = scheduling steps; traces = executions of the real code.",
 		"cooperative scheduling at synchronization operations; priority selects in source order; one publisher",
 		"goroutine leak = a goroutine of the bubble with a go-libipni frame after Close and cleanup",
 	)
@@ -627,7 +674,7 @@ func TestCheck(t *testing.T) {
 	if vp.Thorough() {
 		bound = 3
 	}
-	scs := []*sched.Scenario{pendingAnnounceVsClose(), twoExplicitVsClose(), limitedAnnouncesVsClose(), nestedSyncVsClose(), pubsubAnnounceVsClose(1), explicitVsCloseSeg(1, 1), twoExplicitOfOnePublisherVsClose(), explicitVsClose(1), explicitVsClose(2), announceVsClose(), listenerVsClose()}
+	scs := []*sched.Scenario{pendingAnnounceVsClose(), twoExplicitVsClose(), limitedAnnouncesVsClose(), nestedSyncVsClose(), pubsubAnnounceVsClose(1), explicitVsCloseSeg(1, 1), twoExplicitOfOnePublisherVsClose(), explicitVsClose(1), explicitVsClose(2), announceVsClose(), stalledAnnounceVsClose(false), stalledAnnounceVsClose(true), listenerVsClose()}
 	if vp.Thorough() {
 		scs = append(scs, pubsubAnnounceVsClose(2))
 	}
